@@ -9,6 +9,8 @@ use std::time::Instant;
 
 use peppi::game::immutable::Game;
 use proptest::test_runner::{Config, RngAlgorithm, RngSeed, TestCaseError, TestError, TestRunner};
+#[allow(unused)]
+type _Unused = TestCaseError;
 #[allow(unused_imports)]
 use proptest::test_runner::Reason;
 use serde_json::{json, Value};
